@@ -24,7 +24,9 @@ RULE = ("one virtual process (child / non-child / gone-before-the-call) or 1-6 o
         "call being interrupted 0 / 10 us / 1 ms / 0.1 s / 3 s after it was entered or on / 10 us around the exit instant; sequences of "
         "wait() calls on one object (cache) with other public calls (is_running, kill, terminate, send_signal, suspend, resume, children, name, "
         "status, ppid, parent, cpu_times, as_dict) interposed, direct wait_pid() calls; wait_procs over 1-6 processes, some already waited for "
-        "and touched through those calls, with a chosen set-iteration "
+        "and touched through those calls; psutil.Popen objects (wrapping a faked subprocess.Popen over the same virtual kernel): histories "
+        "{poll, communicate, leaving `with`, wait(None/0/0.01)} collecting first x status {0,1,255,-9,-15} x child ended / ending in 3 ms x "
+        "PID recycled or not, then repeated waits; Popen objects inside wait_procs, with a chosen set-iteration "
         "priority (all permutations for <=3 in quick, <=4 in thorough), callback none/callable/not callable. Non-trivial = at "
         "least one poll or a returned status; distinct = distinct canonical case hash.")
 TRUSTED = ["correspondence harness props/C15.py + props/_c15_vk.py (virtual kernel, virtual clock, fake /proc, set-order control by PID choice)",
@@ -118,7 +120,7 @@ def _wait_cls(p, ops):
 
 
 def gen_cases(rng, tier):
-    n_wait = {"quick": 1000, "thorough": 8000, "search": 1200}[tier]
+    n_wait = {"quick": 850, "thorough": 8000, "search": 1200}[tier]
     n_procs = {"quick": 200, "thorough": 1500, "search": 250}[tier]
     perm_max = {"quick": 3, "thorough": 4, "search": 3}[tier]
     cases = []
@@ -202,6 +204,44 @@ def gen_cases(rng, tier):
         if p["exit"] is not None:
             p["exit"] = q(unq(p["exit"]) + start)
         cases.append({"kind": "wait", "cls": _wait_cls(p, ops), "proc": p, "start": q(start), "ops": ops})
+    # psutil.Popen histories: who collects the status first (the wrapped subprocess object via poll / communicate /
+    # leaving `with`, or psutil's wait), then repeated waits, the PID possibly recycled meanwhile; status 0 prominent
+    PST = [["code", 0], ["code", 0], ["code", 1], ["code", 255], ["sig", 9, False], ["sig", 15, False]]
+    if tier != "search":
+        for st in PST[1:]:
+            for first in (["poll"], ["communicate"], ["exit"], ["wait", None], ["wait", q(0)], ["wait", q(F(1, 100))]):
+                for T in (F(-1), F(3, 1000)):
+                    for reuse in (False, True):
+                        ops = [first]
+                        if T > 0 and first[0] in ("poll", "wait") and first != ["wait", None]:
+                            # still running: nothing collected yet; let it end, then collect the same way
+                            ops += [["advance", q(F(1, 100))], first]
+                        ops += [["wait", q(0)]]
+                        if reuse:
+                            ops += [["reuse"]]
+                        ops += [["call", "is_running"], ["wait", q(F(1, 20))], ["poll"], ["wait", None], ["wait", q(0)]]
+                        p = {"pid": 4242, "kind": "child", "exit": q(T), "status": st, "eintr": []}
+                        cases.append({"kind": "popen", "cls": "popen-%s%s" % (first[0], "-reuse" if reuse else ""),
+                                      "proc": p, "start": q(0), "ops": ops})
+    for _ in range({"quick": 120, "thorough": 1500, "search": 150}[tier]):
+        T = rng.choice([F(-1), F(0), F(3, 1000), F(1, 20), F(1, 2)])
+        ops, collected_possible = [], False
+        for _ in range(rng.choice([3, 4, 5, 6, 8])):
+            r = rng.random()
+            if r < 0.4:
+                ops.append(["wait", rng.choice([None, q(0), q(F(1, 1000)), q(F(1, 100)), q(F(1, 20)), q(F(1))])])
+            elif r < 0.55:
+                ops.append(["poll"])
+            elif r < 0.65:
+                ops.append([rng.choice(["communicate", "exit"])])
+            elif r < 0.8:
+                ops.append(["advance", q(rng.choice([EPS, F(1, 1000), F(1, 20), F(1)]))])
+            elif r < 0.9:
+                ops.append(["call", rng.choice(VK.OTHER_CALLS)])
+            else:
+                ops.append(["reuse"])
+        p = {"pid": 4242, "kind": "child", "exit": q(T), "status": rng.choice(PST), "eintr": []}
+        cases.append({"kind": "popen", "cls": "popen-random", "proc": p, "start": q(0), "ops": ops})
     # wait_procs
     import itertools
     for _ in range(n_procs):
@@ -238,13 +278,34 @@ def gen_cases(rng, tier):
         if rng.random() < 0.35:
             pre = [i for i, p in enumerate(ps) if not p["eintr"] and (p["kind"] == "never" or (p["exit"] is not None and unq(p["exit"]) <= start))]
             inter = [rng.choice(VK.OTHER_CALLS) for _ in range(rng.choice([0, 1, 2]))]
+        # psutil.Popen objects among them: children that had ended, status collected beforehand by one of the routes
+        pop = {}
+        if rng.random() < 0.3:
+            for i, p in enumerate(ps):
+                if p["kind"] == "child" and not p["eintr"] and p["exit"] is not None and unq(p["exit"]) <= start and i not in pre:
+                    pop[str(i)] = {"reap": rng.choice(["poll", "communicate", "exit", "pswait"]), "reuse": rng.random() < 0.4}
+                    if rng.random() < 0.5:
+                        p["status"] = ["code", 0]
         for pr in prios:
-            c = {"kind": "procs", "cls": "procs-%d%s%s%s" % (n, "-notimeout" if tm is None else "", "-cb" if cb == "ok" else "",
-                                                              "-prewaited" if pre else ""),
+            c = {"kind": "procs", "cls": "procs-%d%s%s%s%s" % (n, "-notimeout" if tm is None else "", "-cb" if cb == "ok" else "",
+                                                                "-prewaited" if pre else "", "-popen" if pop else ""),
                  "procs": ps, "prio": pr, "timeout": None if tm is None else q(tm), "cb": cb, "start": q(start)}
+            if pop:
+                c["popen"] = pop
             if pre:
                 c["prewait"], c["inter"] = pre, inter
             cases.append(c)
+    # systematic: wait_procs([Popen]) after the wrapped object collected status 0 / 3 / -9
+    if tier != "search":
+        for st in (["code", 0], ["code", 3], ["sig", 9, False]):
+            for how in ("poll", "communicate", "exit", "pswait"):
+                for reuse in (False, True):
+                    for tm in (None, F(0), F(1, 20)):
+                        ps = [{"pid": 1, "kind": "child", "exit": q(F(-1)), "status": st, "eintr": []},
+                              {"pid": 2, "kind": "child", "exit": q(F(1, 100)) if tm is None else None, "status": ["code", 0], "eintr": []}]
+                        cases.append({"kind": "procs", "cls": "procs-2-popen-cb", "procs": ps, "prio": [0, 1],
+                                      "timeout": None if tm is None else q(tm), "cb": "ok", "start": q(0),
+                                      "popen": {"0": {"reap": how, "reuse": reuse}}})
     # systematic: one ended child + one running child, the ended one waited for and touched before wait_procs
     if tier != "search":
         for nm in VK.OTHER_CALLS:
@@ -299,6 +360,22 @@ def coq_term(case):
             else:
                 ops.append("OpAdvance %s" % gq(o[1]))
         return "run_wait %s %s %s %d%%nat" % (gproc(case["proc"]), gq(case["start"]), G.lst(ops), FUEL)
+    if k == "popen":
+        ops = []
+        for o in case["ops"]:
+            if o[0] == "wait":
+                ops.append("PoWait %s" % gopt(o[1]))
+            elif o[0] == "poll":
+                ops.append("PoPoll")
+            elif o[0] in ("communicate", "exit"):
+                ops.append("PoBlock")
+            elif o[0] == "advance":
+                ops.append("PoAdvance %s" % gq(o[1]))
+            elif o[0] == "reuse":
+                ops.append("PoReuse")
+            else:
+                ops.append("PoOther")
+        return "run_popen %s %s %s %d%%nat" % (gproc(case["proc"]), gq(case["start"]), G.lst(ops), FUEL)
     if k == "procs":
         cb = {"none": "CbNone", "ok": "CbOk", "bad": "CbBad"}[case["cb"]]
         return "run_procs %s [%s] %s %s %d%%nat %d%%nat %s" % (
@@ -314,6 +391,8 @@ def coq_struct(case, raw):
     if k == "wait":
         return {"model": {"ops": [r[:4] for r in raw], "float": "ok"},
                 "lenient": [r[4] for r in raw], "strict": [r[5] for r in raw], "spec": None}
+    if k == "popen":
+        return {"model": {"ops": raw, "float": "ok"}, "spec": None}
     if k == "procs":
         exc, gone, alive, rc, cbs, sleeps, ret, waits, part = raw
         return {"model": {"exc": exc, "gone": sorted(gone) if exc is None else [], "alive": sorted(alive) if exc is None else [],
@@ -354,6 +433,15 @@ def judge(case, coq, impl):
     # theorems C15_wait_meets_oracle / C15_wait_procs_meets_oracle: the model's own run satisfies the oracle
     if (k == "wait" and not all(coq["lenient"])) or (k == "procs" and coq["oracle_ok"] is not True):
         raise RuntimeError("the model's run violates its own oracle (contradicts a theorem) on %r" % (case,))
+    if k == "popen":
+        fails = VK.spec_popen(case, impl["ops"], tol=0)
+        if impl["float"] != "ok":
+            return Verdict("violation", "float clock: " + str(impl["float"]))
+        if fails:
+            return Verdict("violation", "; ".join(fails))
+        if impl != coq["model"]:
+            return Verdict("corr", "Popen history: observation differs from the model")
+        return Verdict("ok")
     if k == "wait":
         fails = VK.spec_ops(case, impl["ops"], strict=True, tol=0)
         if impl["float"] != "ok":
@@ -378,6 +466,8 @@ def judge(case, coq, impl):
 def nontrivial(case, coq, impl):
     if case["kind"] == "decode":
         return True
+    if case["kind"] == "popen":
+        return True
     if case["kind"] == "wait":
         return any(o[2] or (isinstance(o[0], dict) and o[0].get("t") == "Int") for o in coq["model"]["ops"])
     return bool(coq["model"]["waits"])
@@ -395,6 +485,13 @@ def impl_run(case, coq, env):
         fl = VK.run_wait(case, env, "float")
         ff = VK.spec_ops(case, fl, strict=coq["strict"], tol=F(1, 10 ** 9)) if not isinstance(fl, dict) else [repr(fl)]
         return {"ops": ex, "float": "ok" if not ff else "; ".join(ff)}
+    if k == "popen":
+        ex = VK.run_popen(case, env, "exact")
+        if isinstance(ex, dict):
+            return ex
+        fl = VK.run_popen(case, env, "float")
+        ff = VK.spec_popen(case, fl, tol=F(1, 10 ** 9)) if not isinstance(fl, dict) else [repr(fl)]
+        return {"ops": ex, "float": "ok" if not ff else "; ".join(ff)}
     if k == "procs":
         ex = VK.run_procs(case, env, "exact")
         if ex.get("t") == "Skip":
@@ -407,13 +504,16 @@ def impl_run(case, coq, env):
 
 
 MANIFEST = {
-    "text": "22 theorems (Coq, exact rational virtual time, for every exit instant, timeout, process kind, exit status and EINTR placement incl. a blocking "
+    "text": "27 theorems (Coq, exact rational virtual time, for every exit instant, timeout, process kind, exit status and EINTR placement incl. a blocking "
             "waitpid interrupted at any instant): status decoding; a returned status/None is never early; TimeoutExpired(timeout, pid) only at or after the "
             "deadline, less than 40 ms late, and -- on EINTR-free schedules -- with the process alive (EINTR case refuted with a witness: known finding); "
             "k-th sleep = min(2^k/10000, 1/25), timeout=0 never sleeps, negative timeout -> ValueError; TERMINATION: with a timeout ceil(25*timeout)+12 "
             "loop steps suffice for every causal kernel, without a timeout the call returns iff the exit instant is finite, wait_procs needs at most "
             "len(procs)+ceil(timeout)+1 rounds; the cached value is returned without a kernel call; wait_procs partitions its input, sets returncode and "
-            "calls the callback exactly once per gone process and returns before timeout + 40 ms for every iteration order; ORACLES: the boolean oracles "
+            "calls the callback exactly once per gone process and returns before timeout + 40 ms for every iteration order; POPEN (psutil.Popen wrapping subprocess.Popen; state = "
+            "subprocess-side returncode + psutil-side cache): once a status has been collected by either side, 0 included, wait() returns it at once for "
+            "every kernel and timeout, along every later history, for every order of reaping (poll/communicate/__exit__ first, or psutil's wait first); "
+            "ORACLES: the boolean oracles "
             "spec_wait / spec_procs that the harness applies to the implementation are theorems of the model's runs. The model is tied to the code by "
             "running the real psutil over a virtual kernel/clock on placements of the exit instant on and around every polling instant and the deadline "
             "and comparing outcome, every sleep() argument, the return instant and the waitpid-call count.",
